@@ -196,6 +196,20 @@ def run(case):
                            shape=shape, cutoff=cutoff, order=order)
                 case.check(float(np.abs(h1 + l0 - xf.astype(np.float64)).max()) / scale_v <= 5e-4,
                            f"{nm_}: high-pass + low-pass != image", None, shape=shape, cutoff=cutoff, order=order)
+    # float64 data whose values need more than 24 significant bits (a signal of unit amplitude on a level of 1e7):
+    # the filtered image keeps the signal
+    if min(shape) >= 3 and p["kind"] == "noise" and p["dtype"] == "float64":
+        big = 1.0e7 + x.astype(np.float64)
+        wb = ref.lowpass(big, cutoff, order)
+        sig = max(float(np.abs(x).max()), 1e-12)
+        for nm_, fn_ in (("utils.lowpass_filter", lambda a: _utils.lowpass_filter(a, cutoff, order)),
+                         ("Backend.lowpass_filter", lambda a: xp.lowpass_filter(a, cutoff, order))):
+            yb = np.asarray(fn_(big)).astype(np.float64)
+            if yb.shape == wb.shape:
+                eb = float(np.abs(yb - wb).max()) / sig
+                case.maxobs("max_err_float64_offset", eb)
+                case.check(eb <= 5e-3, f"{nm_}: a float64 image loses its signal (narrowed to float32?)", None, err=eb,
+                           shape=shape, cutoff=cutoff)
     # alignment pre-transform (order 2, cutoff semantic: None/0 -> 1.0 i.e. identity)
     if min(shape) >= 2:
         tmpl = np.ones(shape, np.float32)
